@@ -38,6 +38,18 @@ CM_H = 'src/tbb/concurrent_monitor.h'
 CQ_H = 'include/oneapi/tbb/concurrent_queue.h'
 
 MUTANTS = [
+    dict(name='c04-seed2-reset-clears-children-hint', prop='C04', clause='D2', edits=[(TGC_CPP, "        ctx.my_exception.store(nullptr, std::memory_order_relaxed);\n    }\n    ctx.my_cancellation_requested = 0;\n}", "        ctx.my_exception.store(nullptr, std::memory_order_relaxed);\n    }\n    ctx.my_cancellation_requested = 0;\n    ctx.my_may_have_children.store(0, std::memory_order_relaxed);\n}")]),
+    dict(name='c20-seed-notify-before-recall-flag', prop='C20', clause='D3', edits=[('src/tbb/task.cpp', """        sp->recall_owner();
+        // Do not access sp because it can be destroyed after recall
+
+        auto is_our_suspend_point = [sp] (market_context ctx) {
+            return std::uintptr_t(sp) == ctx.my_uniq_addr;
+        };
+        td->my_arena->get_waiting_threads_monitor().notify(is_our_suspend_point);""", """        auto is_our_suspend_point = [sp] (market_context ctx) {
+            return std::uintptr_t(sp) == ctx.my_uniq_addr;
+        };
+        td->my_arena->get_waiting_threads_monitor().notify(is_our_suspend_point);
+        sp->recall_owner();""")]),
     dict(name='c18-seed-null-tls-deref', prop='C18', clause='D2', edits=[(FE_CPP, "        if (ptrDelta && tls) { // !tls is cold path", "        if (ptrDelta) {")]),
     dict(name='c18-llocache-get-null-tls', prop='C18', clause='D2', edits=[(FE_CPP, """    if (tls) {
         tls->markUsed();
